@@ -630,19 +630,19 @@ Definition discipline : list rule := [
   {| r_prefix := "collector.Event."; r_policy := PTransferred (PROC ++ [rConn; "daemon.listenAndServe$1"]);
      r_why := "processLogEventLimits adjusts the ConnectReply on the processor before NewAppHarvest publishes it; serve reads the limits of its private integration-mode Harvest" |};
   {| r_prefix := "infinite_tracing.TraceObserver.messagesRemainingCapacity"; r_policy := POwned [rRun];
-     r_why := "QueueBatch: `This should only be called on a single go routine` -- the capacity counter belongs to the producer (the processor)" |};
+     r_why := "single role: only QueueBatch / emptyQueue / getRemainingQueueCapacity, all on the processor goroutine (`This should only be called on a single go routine`), touch the counter; the worker learns about sent spans through the messagesSent channel. The worker's Debugf read of the counter was the defect fixed in fc40238" |};
   {| r_prefix := "infinite_tracing.grpcSpanBatchSender.stream"; r_policy := POwned [rToWorker];
-     r_why := "the stream is replaced by connect() on the worker; the receive goroutine of the previous connect must not read the field" |};
+     r_why := "single role: written by connect() and used by send() on the worker goroutine only; the receive goroutine uses the local `stream` value it was started with (handed over by the go statement), never the field. Reading s.stream there was the defect fixed in c8aacc8" |};
   {| r_prefix := "log.auditLog"; r_policy := PImmutable [rMain];
      r_why := "InitAudit runs in main before the processor and the listener are started" |};
   {| r_prefix := "log.daemonLevel"; r_policy := PAtomicOnly;
      r_why := "SetLevel / logf use atomic.StoreInt32 / atomic.LoadInt32" |};
   {| r_prefix := "utilization.Data."; r_policy := PTransferred [rGather; rMain; rRun; rExit; rGatherVendor; rGatherAddr; rConnect];
-     r_why := "Gather fills a fresh Data (its helper goroutines are joined by a WaitGroup) and sends it on utilChan; ConnectPayloadInternal works on a per-connect copy" |};
+     r_why := "Gather fills a fresh Data (its helper goroutines are joined by a WaitGroup) and sends it on utilChan; ConnectPayloadInternal works on a per-connect copy (utilCopy := *util) whose Hostname and Vendors pointer it sets before the copy is handed to the connect goroutine by the go statement" |};
   {| r_prefix := "utilization.kubernetes."; r_policy := PImmutable [rGather; rMain];
      r_why := "filled during Gather, before the Data is published" |};
   {| r_prefix := "utilization.vendors."; r_policy := PImmutable [rGather; rMain; rGatherVendor];
-     r_why := "filled during Gather, before the Data is published; the copy made per connect is shallow, so the vendors struct is shared by every connect payload and must not be written afterwards" |}
+     r_why := "filled during Gather (helper goroutines joined by its WaitGroup) before the Data is sent on utilChan; the per-connect copy of Data is shallow, so this struct is shared by every connect payload and is read-only from then on: OverrideDockerId builds a fresh vendors value and replaces the copy's Vendors pointer (field of utilization.Data, per-connect instance) instead of writing here. Writing the shared struct was the defect fixed in 00696d1" |}
 ].
 
 Definition policy_of (field : string) : option policy :=
